@@ -169,6 +169,7 @@ type Interp struct {
 	Partials map[string][]Node
 	sc       *scope
 	unspec   string
+	lenient  string // set when an unknown identifier raised INSIDE an operand (not the operand itself) was forgiven
 	steps    int
 }
 
@@ -177,6 +178,11 @@ type Result struct {
 	Out    string
 	Err    string // non-empty: the render must fail
 	Unspec string // non-empty: the statements do not fix the outcome; drop the case
+	// Lenient is non-empty when the run forgave an unknown identifier that was raised inside a condition or operand
+	// (in a called function's body, in a nested expression) and not by the condition or operand being that
+	// identifier itself. The statements name the latter only: an engine that fails the render there, with the unknown
+	// identifier's error, is as right as one that goes on. Callers accept such a failure and otherwise compare as usual.
+	Lenient string
 }
 
 type ctl int
@@ -215,12 +221,12 @@ func RunWith(prog []Node, data map[string]interface{}, helpers map[string]Helper
 		return Result{Unspec: in.unspec}
 	}
 	if err != nil {
-		return Result{Err: err.Error()}
+		return Result{Err: err.Error(), Lenient: in.lenient}
 	}
 	if c != ctlNone {
 		return Result{Unspec: "control statement escaped to the top level"}
 	}
-	return Result{Out: sb.String()}
+	return Result{Out: sb.String(), Lenient: in.lenient}
 }
 
 func (in *Interp) unspecified(f string, a ...interface{}) {
@@ -440,7 +446,8 @@ func (in *Interp) stmt(s Stmt, inLoop, inFn bool) (ctl, interface{}, error) {
 func (in *Interp) cond(e Expr) (bool, error) {
 	v, err := in.eval(e)
 	if err != nil {
-		if _, ok := err.(*unknownIdent); ok {
+		if u, ok := err.(*unknownIdent); ok {
+			in.forgave(e, u)
 			return false, nil // the one tolerated fault: counts as nil
 		}
 		return false, err
@@ -548,6 +555,11 @@ type OrderedMap struct {
 	Vals map[interface{}]interface{}
 }
 
+// FloatText is the printed form of a float: what an output tag prints for it. No statement fixes its spelling (Go's
+// %v with an exponent for large and small magnitudes, plain decimals, ...); "string + x concatenates the printed form
+// of x" only ties the two together. A check whose values include such floats sets FloatText to ask the engine.
+var FloatText = func(f float64) string { return fmt.Sprint(f) }
+
 // Truthy is the uniform truth table of C07.
 func Truthy(v interface{}) bool {
 	switch t := v.(type) {
@@ -572,8 +584,10 @@ func (in *Interp) write(sb *strings.Builder, v interface{}) {
 		sb.WriteString(string(t))
 	case bool:
 		sb.WriteString(fmt.Sprint(t))
-	case int, float64:
+	case int:
 		sb.WriteString(fmt.Sprint(t))
+	case float64:
+		sb.WriteString(FloatText(t))
 	case []interface{}:
 		for _, e := range t {
 			in.write(sb, e)
@@ -607,9 +621,11 @@ func (in *Interp) eval(e Expr) (interface{}, error) {
 	case Not:
 		v, err := in.eval(t.X)
 		if err != nil {
-			if _, ok := err.(*unknownIdent); !ok {
+			u, ok := err.(*unknownIdent)
+			if !ok {
 				return nil, err
 			}
+			in.forgave(t.X, u)
 			v = nil
 		}
 		return !Truthy(v), nil
@@ -743,12 +759,30 @@ func (in *Interp) call(c Call) (interface{}, error) {
 	return v, nil
 }
 
+// forgave notes a forgiven unknown identifier that the tested expression is not itself.
+func (in *Interp) forgave(e Expr, u *unknownIdent) {
+	for {
+		p, ok := e.(Paren)
+		if !ok {
+			break
+		}
+		e = p.X
+	}
+	if v, ok := e.(Var); ok && v.Name == u.name {
+		return
+	}
+	if in.lenient == "" {
+		in.lenient = "unknown identifier " + u.name + " raised inside a tested expression"
+	}
+}
+
 func tolerant(op string) bool { return op == "==" || op == "!=" || op == "&&" || op == "||" }
 
 func (in *Interp) operand(e Expr, op string) (interface{}, error) {
 	v, err := in.eval(e)
 	if err != nil {
-		if _, ok := err.(*unknownIdent); ok && tolerant(op) {
+		if u, ok := err.(*unknownIdent); ok && tolerant(op) {
+			in.forgave(e, u)
 			return nil, nil
 		}
 		return nil, err
@@ -899,6 +933,9 @@ func (in *Interp) apply(op string, l, r interface{}) (interface{}, error) {
 		if op == "+" {
 			switch r.(type) {
 			case string, int, float64, bool:
+				if f, ok := r.(float64); ok {
+					return lt + FloatText(f), nil
+				}
 				return lt + fmt.Sprint(r), nil
 			}
 			in.unspecified("string + %T", r)
